@@ -3,8 +3,8 @@
 import json, os, sys
 V = os.path.dirname(os.path.dirname(os.path.abspath(__file__)))
 sys.path.insert(0, os.path.join(V, "lib"))
-from checks import CHECKS
-from manifest_text import TEXT, NOT_APPLICABLE, ENGINES
+from checks import CHECKS, TEXT
+from manifest_text import NOT_APPLICABLE, ENGINES
 BASE = json.load(open("/root/.vp/BASELINE.json"))["cmd"] if os.path.exists("/root/.vp/BASELINE.json") else ""
 m = {
  "version": 1,
